@@ -107,9 +107,12 @@ class TaskSet : public TaskSetBase {
   DISPENSO_REQUIRES(OnceCallableFunc<F>)
   void schedule(F&& f) {
     if (DISPENSO_EXPECT(canceled(), false)) {
+      DISPENSO_VERIF_HOOK("ts.guard", this, 1, 2);
       return;
     }
+    DISPENSO_VERIF_HOOK("ts.guard", this, 0, 2);
     if (outstandingTaskCount_.load(std::memory_order_relaxed) > taskSetLoadFactor_) {
+      DISPENSO_VERIF_HOOK("ts.inline", this, 0, 0);
       f();
     } else {
       pool_.schedule(token_, packageTask(std::forward<F>(f)));
@@ -314,6 +317,8 @@ class ConcurrentTaskSet : public TaskSetBase {
     if (outstandingTaskCount_.load(std::memory_order_relaxed) > taskSetLoadFactor_ &&
         DISPENSO_EXPECT(!canceled(), true) && detail::PerPoolPerThreadInfo::canInlineSchedule()) {
       detail::InlineDepthGuard depthGuard;
+      DISPENSO_VERIF_HOOK("ts.guard", this, 0, 2);
+      DISPENSO_VERIF_HOOK("ts.inline", this, 0, 0);
       f();
       return;
     }
@@ -328,6 +333,7 @@ class ConcurrentTaskSet : public TaskSetBase {
           return;
         }
         detail::InlineDepthGuard depthGuard;
+        DISPENSO_VERIF_HOOK("ts.inline", this, 1, 0);
         f();
         return;
       }
@@ -454,6 +460,8 @@ class ConcurrentTaskSet : public TaskSetBase {
     if (outstandingTaskCount_.load(std::memory_order_relaxed) > placedThreshold &&
         DISPENSO_EXPECT(!canceled(), true) && detail::PerPoolPerThreadInfo::canInlineSchedule()) {
       detail::InlineDepthGuard depthGuard;
+      DISPENSO_VERIF_HOOK("ts.guard", this, 0, 2);
+      DISPENSO_VERIF_HOOK("ts.inline", this, 0, 0);
       f();
       return;
     }
@@ -468,6 +476,7 @@ class ConcurrentTaskSet : public TaskSetBase {
           return;
         }
         detail::InlineDepthGuard depthGuard;
+        DISPENSO_VERIF_HOOK("ts.inline", this, 1, 0);
         f();
         return;
       }
